@@ -32,6 +32,8 @@ def cases(tier, seed):
             yield {"fam": name, "i": i}
     for i in range(1500 if tier == "quick" else 40000):
         yield {"fam": "rand", "i": i}
+    for i in range(270 if tier == "quick" else 2700):
+        yield {"fam": "paircode", "i": i}
 
 
 def setup(ctx):
@@ -83,6 +85,14 @@ def judge(ctx, pred, refa, cfg):
 def run(case, ctx):
     fam, i = case["fam"], case["i"]
     r = gen.rng(ctx.seed, "c11", fam, i)
+    if fam == "paircode":
+        pred, refa = gen.paircode_boundary_pair(ctx.seed, i)
+        cfg = {"input": "UNMATCHED_INSTANCE", "matcher": {"kind": "naive", "metric": ["IOU", "DSC"][i % 2], "thr": 0.5, "m2o": False}}
+        ctx.count("f:family.paircode_boundary")
+        a = judge(ctx, pred, refa, cfg)
+        if a:
+            ctx.nontrivial(gen.arr_key(pred, refa), cfg)
+        return
     if fam in TINY:
         shape, alpha, _ = TINY[fam]
         pred, refa = gen.tiny_pair(shape, alpha, i)
